@@ -97,7 +97,7 @@ def finish(args, sd, meta, keep):
         dst = os.path.join(VERIF, 'seeded', args.name)
         os.makedirs(dst, exist_ok=True)
         for f in ('patch.diff', 'demo.py', 'NOTES.md'):
-            if os.path.exists(os.path.join(sd, f)):
+            if os.path.exists(os.path.join(sd, f)) and os.path.abspath(sd) != os.path.abspath(dst):
                 shutil.copy(os.path.join(sd, f), os.path.join(dst, f))
         mp = os.path.join(dst, 'meta.json')
         if os.path.exists(mp):
